@@ -1,0 +1,68 @@
+//! Verification hooks. Only compiled with the `verif` cargo feature, which is off by default.
+//!
+//! A deterministic simulator installs function pointers here to take over the sources of
+//! nondeterminism that have no other seam: the wall clock, version-id generation, and blocking
+//! on the in-memory storage lock. When nothing is installed, each hook falls back to the
+//! real behaviour.
+
+use std::sync::RwLock;
+
+/// Function pointers installed by a simulator.
+#[derive(Clone, Copy)]
+pub struct Hooks {
+    /// Replacement for `chrono::Utc::now()`.
+    pub now: fn() -> chrono::DateTime<chrono::Utc>,
+    /// Replacement for `uuid::Uuid::new_v4()`.
+    pub new_v4: fn() -> uuid::Uuid,
+    /// Called each time the in-memory storage lock is found to be held by another thread.
+    pub lock_contended: fn(),
+}
+
+static HOOKS: RwLock<Option<Hooks>> = RwLock::new(None);
+
+/// Install (or, with `None`, remove) the hooks for this process.
+pub fn install(hooks: Option<Hooks>) {
+    *HOOKS.write().unwrap() = hooks;
+}
+
+fn get() -> Option<Hooks> {
+    *HOOKS.read().unwrap()
+}
+
+/// Stand-in for `chrono::Utc`, shadowing it where `Utc::now()` is called.
+pub struct Utc;
+
+impl Utc {
+    pub fn now() -> chrono::DateTime<chrono::Utc> {
+        match get() {
+            Some(h) => (h.now)(),
+            None => chrono::Utc::now(),
+        }
+    }
+}
+
+/// Stand-in for `uuid::Uuid`, shadowing it where `Uuid::new_v4()` is called.
+pub struct Uuid;
+
+impl Uuid {
+    pub fn new_v4() -> uuid::Uuid {
+        match get() {
+            Some(h) => (h.new_v4)(),
+            None => uuid::Uuid::new_v4(),
+        }
+    }
+}
+
+/// Wait, through the simulator, until `m` is free. The simulator runs one thread at a time and
+/// has no scheduling point between this probe and the caller's `lock()`, so that `lock()` does
+/// not block. Without installed hooks this does nothing.
+pub fn before_lock<T>(m: &std::sync::Mutex<T>) {
+    if let Some(h) = get() {
+        loop {
+            match m.try_lock() {
+                Err(std::sync::TryLockError::WouldBlock) => (h.lock_contended)(),
+                _ => break,
+            }
+        }
+    }
+}
